@@ -9,7 +9,7 @@ from . import dbcommon as C
 from .c02 import check_version_rows, sqlite_view
 
 ID = "C05"
-LEAN_MODULES = ["SqliteDissect.Properties.C02", "SqliteDissect.Properties.C02b"]
+LEAN_MODULES = ["SqliteDissect.Properties.C05", "SqliteDissect.Properties.C02", "SqliteDissect.Properties.C02b"]
 RULE = ("every WAL of the C02 history kinds truncated at frame boundaries, +-1, inside frame headers, inside page "
         "images and inside the WAL header (quick: 12 offsets per frame on a few WALs; thorough: every byte offset "
         "of small WALs and 64 offsets per frame on many); outcome class and versions compared with the Lean model, "
